@@ -54,7 +54,11 @@ def same_time(a, b):
         return is_date(a) and is_date(b) and a == b
     if (a.tzinfo is None) != (b.tzinfo is None):
         return False
-    return a == b
+    if a.tzinfo is None:
+        return a == b
+    # instants computed by hand: Python's == between two different tzinfo objects is never true for a wall time inside a
+    # repeated hour (PEP 495), whatever the instants are
+    return a.replace(tzinfo=None) - a.utcoffset() == b.replace(tzinfo=None) - b.utcoffset()
 
 
 # ------------------------------------------------------------------ C15
